@@ -87,7 +87,7 @@ def machine(ctx, quick):
     ctx.model("HeatKernel liveness under WF (every call returns)", r)
     MaxC = 2 if quick else 3
     dump = os.path.join(mktempdir(prefix="heatdump_"), "dump.json")
-    r = tlc.run_tlc("HeatKernel", workers=1, env={"DUMP_FILE": dump}, init="DumpInit", nxt="Next", constants=dict(MaxC=MaxC, MaxPts=2), heap="6g")
+    r = tlc.run_tlc("HeatKernel", workers=1, env={"DUMP_FILE": dump}, init="DumpInit", nxt="DumpNext", constants=dict(MaxC=MaxC, MaxPts=2), heap="6g")
     if r["error"] or not os.path.exists(dump):
         ctx.machinery_errors.append("HeatKernel dump failed:\n" + r["out"][-1500:]); return
     dumped = json.load(open(dump)); os.remove(dump)
